@@ -96,6 +96,8 @@ func uniqueVals() func() any {
 	}
 }
 
+type replaceWithWhatIsThere struct{}
+
 func randListOp(r *core.Rng, L int, fifoOn bool, next func() any) LOp {
 	for {
 		w := r.Intn(100)
@@ -135,6 +137,9 @@ func randListOp(r *core.Rng, L int, fifoOn bool, next func() any) LOp {
 			var v any = next()
 			if r.Chance(1, 20) {
 				v = nil
+			}
+			if r.Chance(1, 8) {
+				v = replaceWithWhatIsThere{} // resolved to the value already at that position when the op is applied
 			}
 			return LOp{K: "Replace", Vals: []any{v}, I: r.Intn(L)}
 		case w < 79:
@@ -215,6 +220,11 @@ func c01Run(c *core.Ctx, idx int) {
 		}
 		if op.K == "Remove" && op.I < 0 && m.Len() == 0 {
 			op.I = 0
+		}
+		if op.K == "Replace" {
+			if _, same := op.Vals[0].(replaceWithWhatIsThere); same {
+				op.Vals = []any{m.Items[op.I]} // replacing an element by itself changes nothing and succeeds like any Replace
+			}
 		}
 		log = append(log, op.String())
 		c.Count("op." + op.K)
